@@ -98,6 +98,16 @@ def history(task):
             path = (home + b"/docs/" if t.startswith(home) else b"stuff/") + b"from%%20elsewhere%d" % j
             w.file(t + b"/info/foreign%d.trashinfo" % j, render(shape, path, b"2024-03-01T12:00:0%d" % j), 0o600)
             w.file(t + b"/files/foreign%d" % j, b"foreign payload")
+    crowded = task["i"] % 7 == 3
+    if crowded:
+        # a well-filled trash: two-digit indices at the restore prompt, ranges across the digit boundary
+        t = home + b"/.local/share/Trash"
+        w.dir(t, 0o700)
+        w.dir(t + b"/files", 0o700)
+        w.dir(t + b"/info", 0o700)
+        for j in range(12):
+            w.file(t + b"/info/many%02d.trashinfo" % j, b"[Trash Info]\nPath=" + home + b"/docs/many%02d\nDeletionDate=2023-05-%02dT08:00:00\n" % (j, j + 1), 0o600)
+            w.file(t + b"/files/many%02d" % j, b"one of many %d" % j)
     base = w.world(env={"HOME": home}, uid=uid, cwd=home, cmd="list", opts={}, args=[], stdin=None,
                    meta={"entries": [], "tdirs": [], "profile": "c09", "payload_kinds": []})
     state = {n["p"]: (n["k"], n.get("data", b""), n.get("mode", 0), n.get("mtime", 0), n.get("target", b"")) for n in base["nodes"]}
@@ -108,6 +118,8 @@ def history(task):
     for k in range(nsteps):
         ents = trash_entries(state)
         cmd = rng.choice(["put", "put", "put", "restore", "rm", "empty"] if ents else ["put"])
+        if crowded and k == 0:
+            cmd = "restore"
         if cmd == "put":
             d = rng.choice(dirs)
             name = rng.choice(NAMES)
@@ -129,7 +141,8 @@ def history(task):
         elif cmd == "restore":
             t, n, loc = rng.choice(ents)
             wd = world_from_state(base, state, cmd="restore", cwd=R, opts={"path": b"/", "sort": rng.choice(["date", "path", "none"])},
-                                  stdin=rng.choice([b"0", b"0", b"1", b"0-1", b""]) + b"\n")
+                                  stdin=(rng.choice([b"0", b"0", b"1", b"0-1", b""]) if len(ents) < 12 else
+                                         rng.choice([b"2-10", b"9-11,0-1", b"3-11"] + ([] if k == 0 else [b"10-11", b"0"]))) + b"\n")
             wd["argv"] = cmd_argv(wd)
             r = readcheck.evaluate(with_meta(wd, state, home), drv, oracles=("effects",))
             e = r["oracle"].get("effects")
